@@ -423,6 +423,17 @@ func (adb *AccountsDB) saveDataTrie(accountHandler baseAccountHandler) error {
 			return err
 		}
 
+		oldCachedDataTrie := adb.dataTries.Get(accountHandler.AddressBytes())
+		if !check.IfNil(oldCachedDataTrie) {
+			// the address was used by an account that has been removed. The cached data trie of that account might hold
+			// uncommitted changes, so it has to be put back if the removal is reverted
+			entry, err := NewJournalEntryDataTrieReplaced(accountHandler.AddressBytes(), oldCachedDataTrie, adb.dataTries)
+			if err != nil {
+				return err
+			}
+			adb.journalize(entry)
+		}
+
 		accountHandler.SetDataTrie(newDataTrie)
 		adb.dataTries.Put(accountHandler.AddressBytes(), newDataTrie)
 	}
